@@ -49,3 +49,38 @@ CHECKS["C02"] = {
     ],
     "expect_checks": ["c02.pure", "c02.e2e"],
 }
+
+_E2E_NOTE = "Trusted: the in-memory rig (net.Pipe listener with TCP-like addresses, recording net/http backend, raw HTTP/1.1 writer and raw HTTP/2 peer built on x/net v0.19.0 framer+hpack), testing/synctest quiescence; the proxy object graph is built like fingerproxy.Run builds it (proxyserver.NewServer + reverseproxy.NewHTTPHandler + injectors)."
+
+CHECKS["C05"] = {
+    "level": "exploration",
+    "technique": "property-based testing (rapid): generated injector sets (default three + custom injectors yielding value/empty/error) x client requests carrying attacker values under injected names in drawn letter case, once or repeated, over HTTP/1.1, HTTP/2 (incl. CONTINUATION) and no-ALPN connections, with parsable and unparsable hellos; oracle on the header values recorded by the backend",
+    "rule": "case = connection (protocol, parsable/2-record hello, injector set with outcomes) + 1..3 requests with 0..12 spoofed field lines (configured names in 4 case variants, near-miss names). Non-trivial = a client value is present under a configured name whose injector yields nothing (empty or error) for that request; distinct by hash of the script.",
+    "level_text": "Generated-input search with a validity oracle at the backend (values under a configured name are a subset of {proxy-computed value}, at most one, never a client value; near-miss names pass through). Absence of counterexamples in ~2.5k (quick) / 60k (thorough) connections.",
+    "level_note": _E2E_NOTE,
+    "assumptions": ["attacker values are recognisable (prefix spoof-) and never collide with real fingerprints"],
+    "units": [{"name": "c05", "pkg": "c05", "run": "^Test", "shards": 8}],
+    "expect_checks": ["c05.spoof"],
+}
+
+CHECKS["C09"] = {
+    "level": "exploration",
+    "technique": "property-based testing (rapid): generated peer addresses (IPv4/IPv6/IPv4-mapped), Host values, client-supplied X-Forwarded-*/Forwarded lines in drawn case, both protocols and no ALPN, PreserveHost on/off; oracle on the forwarding headers recorded by the backend",
+    "rule": "case = connection (protocol, peer address, PreserveHost) + 1..3 requests with 0..5 client-supplied forwarding field lines. Non-trivial = the client sent at least one forwarding header or the connection is not HTTP/2; distinct by hash of the script.",
+    "level_text": "Generated-input search with an exact oracle (last X-Forwarded-For element = peer IP after the client's list in order, X-Forwarded-Host = Host addressed, X-Forwarded-Proto = https exactly once, no Forwarded, Host per PreserveHost).",
+    "level_note": _E2E_NOTE,
+    "assumptions": ["lists are compared after splitting on commas and trimming blanks, the form net/http joins them in"],
+    "units": [{"name": "c09", "pkg": "c09", "run": "^Test", "shards": 8}],
+    "expect_checks": ["c09.forwarding"],
+}
+
+CHECKS["C15"] = {
+    "level": "exploration",
+    "technique": "property-based testing (rapid): User-Agent values drawn from a grammar around the literal kube-probe/ (absent, empty, prefix, infix, suffix, case variants, two field lines, literal in other headers or the path) x methods x protocols x probe support on/off; oracle on the client-visible response and the backend request log",
+    "rule": "case = connection (protocol, probe support) + 1..4 requests. Non-trivial = a User-Agent contains kube-probe without being a plain probe prefix, or probe support is off while the UA is a probe UA; distinct by hash of the script.",
+    "level_text": "Generated-input search with an exact oracle: answered locally (200, OK, backend log unchanged) iff probe support is on and the first User-Agent value begins with kube-probe/; otherwise forwarded exactly once and the backend's answer reaches the client; never both, never neither.",
+    "level_note": _E2E_NOTE,
+    "assumptions": ["requests whose two User-Agent lines disagree are judged only by the exclusive-or clause", "leading/trailing blanks are not part of a header value (RFC 9110)"],
+    "units": [{"name": "c15", "pkg": "c15", "run": "^Test", "shards": 8}],
+    "expect_checks": ["c15.probe"],
+}
